@@ -124,7 +124,7 @@ impl Campaign for C14c {
         let finish = if g.chance(1, 2) { Finish::Respond(RespSpec::simple(200, token_body(&id, 10))) } else { Finish::Drop };
         sc.programs.insert(id.clone(), Program { delay: 0, after: vec![], body: body.clone(), delay2: 0, finish: finish.clone() });
         sc.default_program = Program { delay: 0, after: vec![], body, delay2: 0, finish };
-        let seg = *g.pick(&[Seg::Whole, Seg::Whole, Seg::Fixed(4096), Seg::Random(3), Seg::PerMessage]);
+        let seg = *g.pick(&[Seg::Whole, Seg::Whole, Seg::Fixed(4096), Seg::Random(3), Seg::PerMessage, Seg::Fixed(1), Seg::Fixed(3), Seg::Fixed(61)]);
         let mut steps = segment(&msgs, seg, 0, &mut g);
         steps.push(match g.below(4) {
             0 => ClientStep::Reset,
